@@ -202,3 +202,27 @@ Proof.
     rewrite List.map_nth. change 0%Z with (Z.of_nat 0) at 1. rewrite List.map_nth, List.seq_nth by exact Hk. cbn [plus].
     apply grid_impl_correct; [lia|exact G].
 Qed.
+
+(* ---- time_windows_to_samples on arbitrary binary64 inputs: the rounded product stays within the tolerance of the
+   decimal stream (Spec.valid_conv_tol) for products up to 2^22 samples ---- *)
+Require Import QV.C20.ProofsFloat2 QV.C20.Spec QV.C20.ProofsWinF.
+Open Scope R_scope.
+
+Lemma b64_close x : (0 <= x)%Q -> (x <= inject_Z (2 ^ 22))%Q -> (Qabs (b64 x - x) <= 1 # (2 ^ 31))%Q.
+Proof.
+  intros H0 H1. apply Rle_Qle. rewrite Q2R_Qabs, Q2R_minus, b64_is_RN.
+  apply Qle_Rle in H0, H1. rewrite Q2R_0 in H0. rewrite Q2R_inject_Z in H1.
+  eapply Rle_trans; [apply (RN_err (Q2R x) (IZR (2 ^ 22)))|].
+  - rewrite Rabs_pos_eq; lra.
+  - apply Rle_trans with 1%R; [|apply IZR_le; vm_compute; discriminate].
+    change 1%R with (bpow radix2 0). apply bpow_le. lia.
+  - rewrite u53_val. change (2 ^ 22)%Z with 4194304%Z. change (1 # 2 ^ 31)%Q with (1 # 2147483648)%Q.
+    unfold Q2R. cbn [Qnum Qden]. lra.
+Qed.
+
+Theorem conv64_within_tolerance sr (w : Q * Q) :
+  (0 <= fst w * sr <= inject_Z (2 ^ 22))%Q -> (0 <= snd w * sr <= inject_Z (2 ^ 22))%Q ->
+  valid_conv_tol sr w (conv64 sr w) = true.
+Proof.
+  intros [B0 B1] [L0 L1]. unfold conv64. apply conv_tol_from_close; apply b64_close; assumption.
+Qed.
